@@ -89,6 +89,8 @@ def compose(ctx, g, total):
     def add(fs, ops):
         fs.setdefault("ld", 0)
         fs.setdefault("n", 0)
+        fs.setdefault("tl", "absent")
+        fs.setdefault("tt", "absent")
         cases.append({"id": len(cases) + 1, "cred": len(cases) % 2 == 1, "fs": fs, "ops": ops})
 
     def item(p, mode, mk, perm=420):
@@ -135,6 +137,31 @@ def compose(ctx, g, total):
         add(fs, [{"op": "open", "many": n, "items": [item("target", "r", False)]},
                  {"op": "open", "many": n, "items": [item("a", "rw", False)]},
                  {"op": "open", "items": batch()}])
+    # interacting directory chains: MkdirAll of one item and the parent directory of another item of the batch
+    tstates = sorted(rd("treestates.ndjson"), key=key)
+    titems = rd("treeitems.ndjson")
+    tpats = sorted(x["pat"] for x in rd("treepatterns.ndjson"))
+    if not tstates or not titems or not tpats:
+        raise vlib.Inconclusive("FileOps_Gen produced no directory-chain family")
+    tindex = {(i["p"], i["mk"], i["mode"]): i for i in titems}
+
+    def tree_item(tok):
+        if tok == "any":
+            return dict(rng.choice(plant if rng.random() < 0.7 else titems))
+        p, mk = tok[:-1], tok[-1] == "+"
+        mode = rng.choice(["w", "rw", "ac", "x"] if rng.random() < 0.8 else ["r"])
+        if p == "c":
+            return item("c", mode if mode in ("w", "rw", "r") else "rw", mk)
+        return dict(tindex[(p, mk, mode)])
+    for ti, ts in enumerate(tstates):
+        for pi, pat in enumerate(tpats):
+            if ctx.quick() and pi >= 2 and (pi + ti + ctx.seed) % 3:
+                continue
+            fs = dict(rng.choice([s for s in states if s["sub"] == "absent"]))
+            fs.update(ts)
+            add(fs, [{"op": "open", "items": [tree_item(t) for t in pat]},
+                     {"op": "open", "items": [dict(rng.choice(titems)) for _ in range(rng.choice([1, 2, 3]))]}])
+    ctx.cov["directory_chain_cases"] = sum(1 for c in cases if c["ops"] and any(i.get("p") in ("ld", "td") for o in c["ops"] for i in o.get("items", [])))
     # long legal paths: failing items whose error texts add up to 8 / 16 / 24 / 30 KiB (below the 32 KiB
     # frame, so the reply must still be answered item by item), between succeeding items
     def plen(n, what):
@@ -210,6 +237,8 @@ def kind0(fs, p):
         return "numbered"
     if p == "L":
         return "longpath"
+    if p in ("ld", "td"):
+        return "%s[l=%s,t=%s]" % (p, fs.get("tl"), fs.get("tt"))
     return {"a": fs["a"], "b": fs["b"], "c": fs["c"] if fs["sub"] == "dir" else "noparent", "sub": fs["sub"]}.get(p, p)
 
 
@@ -251,7 +280,7 @@ def run(ctx):
     ctx.states += a["mc"].distinct
     ctx.transitions += a["mc"].generated
     ctx.cov["mc_distinct"] = a["mc"].distinct
-    cases, cover = compose(ctx, a["gen"], ctx.pick(150, 2000))
+    cases, cover = compose(ctx, a["gen"], ctx.pick(190, 2000))
     ctx.log("%d cases (%d covering), %d operations" % (len(cases), cover, sum(len(c["ops"]) for c in cases)))
     cp, op = ctx.path("focases.ndjson"), ctx.path("foobs.ndjson")
     with open(cp, "w") as fh:
